@@ -1,10 +1,10 @@
 #!/bin/sh
 # ./seedcheck.sh <name> <mutdir> <pkgdir> <RunPattern> <property> : confirm a seeded change in a scratch copy of the ORIGINAL snapshot
-# (git archive of the first commit of /repo): (a) builds + full suite passes with patch, (b) demo fails with patch, (c) demo passes without.
+# (git archive of the first commit of /repo, or of $SEEDBASE): (a) builds + full suite passes with patch, (b) demo fails with patch, (c) demo passes without.
 NAME=$1; M=$(readlink -f $2); PKG=$3; PAT=$4; PROP=$5
 unset GOSUMDB GOTOOLCHAIN; export GOFLAGS=-mod=mod GOPROXY=off
 S=/root/scratch/seed-$NAME; rm -rf $S; mkdir -p $S
-BASE=$(git -C /repo rev-list --max-parents=0 HEAD)
+BASE=${SEEDBASE:-$(git -C /repo rev-list --max-parents=0 HEAD)}
 git -C /repo archive $BASE | tar -x -C $S
 cd $S
 cp $M/demo_test.go $PKG/zz_demo_test.go
